@@ -48,20 +48,23 @@ pub(crate) fn with_anchor_context<R>(
     anchor: Option<usize>,
     f: impl FnOnce() -> R,
 ) -> R {
-    if let Some(id) = anchor {
-        STATE.with(|state| {
-            let mut s = state.borrow_mut();
-            s.stack.push((kind, id));
-            *s.in_progress.entry((kind, id)).or_insert(0) += 1;
-        });
-        let guard = Guard { kind, id };
-        let result = f();
-        drop(guard);
-        result
-    } else {
-        f()
-    }
+    // A wrapper node without an anchor of its own still opens a context (with the id 0, which
+    // no anchor has): otherwise a wrapper nested inside it would find the *enclosing* wrapper's
+    // entry on the stack and take that anchor for its own.
+    let id = anchor.unwrap_or(NO_ANCHOR);
+    STATE.with(|state| {
+        let mut s = state.borrow_mut();
+        s.stack.push((kind, id));
+        *s.in_progress.entry((kind, id)).or_insert(0) += 1;
+    });
+    let guard = Guard { kind, id };
+    let result = f();
+    drop(guard);
+    result
 }
+
+/// Context id of a wrapper node that carries no anchor (anchor ids start at 1).
+const NO_ANCHOR: usize = 0;
 
 struct Guard {
     kind: AnchorKind,
@@ -92,6 +95,8 @@ fn current_anchor_id(kind: AnchorKind) -> Option<usize> {
             .iter()
             .rev()
             .find_map(|(k, id)| if *k == kind { Some(*id) } else { None })
+            // the innermost wrapper of this kind has no anchor
+            .filter(|id| *id != NO_ANCHOR)
     })
 }
 
